@@ -18,6 +18,8 @@ MCFiles ==
     q2       |-> F("ok", "QB"),      \* b/ops.graphql: same base name, different content
     q1rel    |-> F("ok", "QA"),      \* ops.graphql relative to the working directory b/sub
     q2rel    |-> F("ok", "QB"),      \* ../ops.graphql relative to it (= b/ops.graphql)
+    qinvalid |-> F("ok", "QI"),      \* a/invalid.graphql: parses, but selects an unknown field five levels down
+    qdeep    |-> F("ok", "QD"),      \* a/deep.graphql: a valid selection nested thirty levels deep
     qmissing |-> F("missing", ""),
     qbad     |-> F("bad", ""),
     s1       |-> F("ok", "SA"),      \* a/schema.graphql
@@ -36,6 +38,8 @@ MCCalls ==
     other  |-> C("q2", "s1", "o1"),
     sother |-> C("q1", "s2", "o1"),
     json   |-> C("q1", "s1json", "o3"),
+    invalid |-> C("qinvalid", "s1", "o1"),   \* loads fine, fails in resolution: still a pure function of its inputs
+    deep   |-> C("qdeep", "s1", "o1"),
     qmiss  |-> C("qmissing", "s1", "o1"),
     qbad   |-> C("qbad", "s1", "o1"),
     smiss  |-> C("q1", "smissing", "o1"),
